@@ -8,8 +8,8 @@
 //!       element sequence of `Tensor::arange(|from|).reshaped(from).broadcast(to)` (the reference
 //!       broadcast of the Lean model is tied to the real view machinery).
 //! Oracle-only requests (`#lay …`): for every catalogue operator, the same logical inputs presented as
-//! contiguous tensors (baseline) and as views of differently laid-out storage — permuted, strided
-//! (stepped), `with_capacity`-backed, broadcast (stride-0) — one data input at a time and all at once,
+//! contiguous tensors (baseline) and as views of differently laid-out storage — permuted, transposed, strided
+//! (all axes / column-stepped / row-stepped), `with_capacity`-backed, broadcast (stride-0) — one data input at a time and all at once,
 //! plus the `TransformInputs` wrapper fed the pre-permuted storage.  Outputs must agree in count,
 //! dtype, shape and element bits (all NaNs identified).
 #[path = "../onnx_enc.rs"]
@@ -164,7 +164,7 @@ struct Ctx {
     noted: BTreeSet<String>,
 }
 
-const LAYOUTS: [Var; 3] = [Var::Permuted, Var::Strided, Var::Spare];
+const LAYOUTS: [Var; 6] = [Var::Permuted, Var::Strided, Var::Spare, Var::Transposed, Var::ColStep, Var::RowStep];
 
 fn generic_case(cx: &mut Ctx, name: &'static str, case_seed: u64) {
     let mut rng = Rng::new(case_seed);
